@@ -88,6 +88,18 @@ def run_property(mod, tier, seed, replay=None):
         problems.append({"kind": "theorem", "what": "proof obligations of %s do not check" % mod.PROP_FILE,
                          "files_not_compiled": st["failed_files"], "forbidden": st["forbidden"],
                          "assumptions": st["assumptions"], "log_tail": coq_log[-1500:] if not ok_coq else ""})
+    extra_info = None
+    if hasattr(mod, "extra_problems"):
+        try:
+            ps, extra_info = mod.extra_problems(tier)
+        except Exception as e:
+            ps, extra_info = [{"kind": "theorem", "what": "extra proof obligations could not be checked: %s" % e}], None
+        problems += ps
+        if extra_info:
+            st["obligations"] += extra_info.get("obligations", 0)
+            st["discharged"] += extra_info.get("discharged", 0)
+            st["theorems"] = st["theorems"] + extra_info.get("theorems", [])
+            st["assumptions"].update(extra_info.get("assumptions", {}))
     if not ok_h:
         core.write_evidence(prop, tier, seed, st, {"evaluations": 0, "distinct_nontrivial": 0, "rule": getattr(mod, "RULE", ""),
                             "samples": [], "explanation": "harness build failed"}, time.time() - t0, 1)
@@ -223,6 +235,8 @@ def run_property(mod, tier, seed, replay=None):
            "rule": getattr(mod, "RULE", ""), "samples": samples,
            "agree": agree_n, "spec_true": spec_n, "known_finding_cases": known_total, "repo": core.repo_head(),
            "input_distribution": hist}
+    if extra_info:
+        cov["generated_model"] = extra_info.get("info")
     core.write_evidence(prop, tier, seed, st, cov, time.time() - t0, nviol,
                         assumptions=getattr(mod, "ASSUMPTIONS", []))
     if rc == 0:
